@@ -55,8 +55,21 @@ def comparator_tables(ctx, which):
             if sum(1 for v_ in rt_.values() if v_ is not None) >= len(vs) - 1 and len(set(rt_.values())) >= 5:
                 R, rank_fn = RB_, c_
                 break
-    if B is None or R is None:
+    if B is None:
         return None
+    if R is None:
+        # no variant -> number function: the rank may be an enum compared through its derived order, spliced into the comparator.
+        # The pair table is evaluated as it stands and the ranks read off it: rank(v) = how many variants sort strictly before v by a constant answer
+    # given before the rank comparison said Equal.
+        table = {}
+        for i, a in enumerate(vs):
+            for j, b in enumerate(vs):
+                table[(a, b)] = walk(B, i, j, None, None)
+        consts = sum(1 for r in table.values() if r['kind'] == 'const')
+        if consts < len(vs):
+            return None
+        ranks = {a: sum(1 for b in vs if table[(b, a)]['kind'] == 'const' and table[(b, a)].get('value') == 'Less' and not table[(b, a)].get('rank_equal')) for a in vs}
+        return {'B': B, 'variants': vs, 'ranks': ranks, 'table': table}
     ranks = rank_table(R, len(vs))
     table = {}
     for i, a in enumerate(vs):
@@ -164,6 +177,8 @@ def run(ctx):
     for which in ('owned', 'borrowed'):
         t = comparator_tables(ctx, which)
         if t is None:
+            # fail closed: nothing about the order can be decided without the pair table
+            ctx.anchor(False, 'pair table of the %s comparator (Ord::cmp of the term type, with a rank function or an evaluable rank comparison)' % which)
             return
         tabs[which] = t
 
